@@ -61,6 +61,12 @@ def echo_mut(*args, **kwargs):
     return snap
 
 
+def echo_slow(*args, **kwargs):
+    """echo that takes a while: the caller can act while results are still owed."""
+    time.sleep(0.25)
+    return echo(*args, **kwargs)
+
+
 def ident(x=None):
     return x
 
